@@ -211,7 +211,13 @@ static void run_script(char key, int id, int occ, long g) {
   if (g >= cblimit) { char b[16] = "stop_loop"; exec_op(b); }
 }
 
+/* a loop phase that never ends (e.g. a watcher list iterated while callbacks relink it) must not hang the check */
+static void runaway_guard(void) {
+  if (ncb_total > cblimit + 400) { printf("RUNAWAY-CALLBACKS\n"); fflush(stdout); gate_forever = 1; _exit(97); }
+}
+
 static void generic_cb(const char* kind, int i, const char* args) {
+  runaway_guard();
   long g = ncb_total++;
   int occ = H[i].ncb++;
   printf("cb %s h%d%s\n", kind, i, args); obs();
